@@ -35,6 +35,65 @@ EXPLANATION = (
 sys.path.insert(0, os.path.join(vlib.REPO, "tests"))
 
 
+
+# =======================================================================================
+# 0. deterministic replay of the recorded known findings (one KNOWN-FINDING line each)
+# =======================================================================================
+
+def known_finding_replays(ctx):
+    """The two inputs recorded in known_findings.json are replayed on every run (no use of
+    ctx.rng).  Each is reported only if it still fails in exactly the recorded way; the class
+    rules are deliberately narrow so that any other failure remains a VIOLATION."""
+    from test_Hydrodynamics import TestModelBag
+    # (a) fastestDeflag raises TypeError because findMatching(vMin+vBracketLow) is (None,)*4
+    try:
+        model = TestModelBag(0.5, 0.9)
+        set_ranges(model, TMaxLow=1.30744590709152, lowEnds=False)
+        h = new_hydro(model)
+        lo = h.vMin + h.vBracketLow
+        start = h.findMatching(lo)
+        ctx.count("known_finding_replay", bucket="window-start-unsolved")
+        if start[0] is None:
+            try:
+                h.fastestDeflag()
+            except TypeError as ex:
+                ctx.fail_input(
+                    "fastestDeflag raised %r: findMatching(vMin+vBracketLow=%.4g) returns no "
+                    "solution [bag psi=0.5 Tn=0.9, rtol=atol=1e-8, TMaxLowT=1.30744590709152]"
+                    % (ex, lo),
+                    dict(kind="range", case=dict(eos="bag", psi=0.5, Tn=0.9), which="low",
+                         TMaxLowT=1.30744590709152, TMaxHighT=500.0, lowEnds=False,
+                         highEnds=False), key="fastestDeflag:window-start-unsolved")
+    except Exception as ex:
+        ctx.log("known-finding replay (a) could not be run:", repr(ex))
+    # (b) spurious slow-wall solution near Tc makes fastestDeflag advertise the jump position
+    try:
+        TML, TMH = 1.0234292605860773, 1.0103859601831544
+        model = TestModelBag(0.95, 0.95)
+        set_ranges(model, TML, False, TMH, True)
+        h = new_hydro(model)
+        Tn = model.Tnucl
+        slow = h.findMatching(0.002)
+        ctx.count("known_finding_replay", bucket="spurious-slow-wall-solution")
+        spurious = slow[0] is not None and abs(float(slow[2]) - Tn) > 0.01 * Tn
+        if spurious:
+            vmax = float(h.fastestDeflag())
+            inside = []
+            for vw in (0.05, 0.1, 0.3):
+                _, _, Tp, Tm = h.findMatching(vw)
+                inside.append(Tm <= TML and Tp <= TMH)
+            if vmax < 0.01 and all(inside):
+                ctx.fail_input(
+                    "findMatching(0.002) returns the spurious solution T+=%.5f T-=%.5f (Tn=%.2f)"
+                    " and fastestDeflag()=%.6f although the walls vw=0.05, 0.1, 0.3 are inside "
+                    "both ranges [bag psi=0.95 Tn=0.95, rtol=atol=1e-8]" % (
+                        float(slow[2]), float(slow[3]), Tn, vmax),
+                    dict(kind="range", case=dict(eos="bag", psi=0.95, Tn=0.95), which="both",
+                         TMaxLowT=TML, TMaxHighT=TMH, lowEnds=False, highEnds=True, vw=0.002),
+                    key="findMatching:spurious-slow-wall-solution")
+    except Exception as ex:
+        ctx.log("known-finding replay (b) could not be run:", repr(ex))
+
 # =======================================================================================
 # 1. correspondence: decision model (Model/RangeLimit.v, Q instance) vs the real methods
 # =======================================================================================
@@ -435,6 +494,22 @@ def chapman_jouguet(ctx, label, case, model, h):
                                key="template:deton-branch")
 
 
+def vJ_is_smallest_detonation(ctx, label, rep, model, h):
+    """Chapman-Jouguet point, stated with p and e only (so also valid when the tabulated
+    ranges are cut): a detonation matching exists just above the advertised vJ and none just
+    below it."""
+    ts = np.linspace(model.Tnucl, 3 * model.Tnucl, 600)
+    below = min(deton_residual(model, h.vJ * (1 - 2e-3), t) for t in ts)
+    above = min(deton_residual(model, h.vJ * (1 + 2e-3), t) for t in ts)
+    ctx.count("vJ_smallest_detonation")
+    if below <= 0 or above > 0:
+        ctx.fail_input(
+            "the advertised vJ=%.6f is not the Chapman-Jouguet velocity: min over T- of the "
+            "detonation residual is %.3e at 0.998 vJ (must be > 0) and %.3e at 1.002 vJ (must be "
+            "< 0) [TMaxLowT=%.6g, %s]" % (h.vJ, below, above, model.TMaxLowT, label),
+            dict(rep, vJ=h.vJ), key="CJ:vJ-not-smallest-detonation")
+
+
 def monotone(vals, increasing, rel=1e-6):
     bad = 0
     for a, b in zip(vals, vals[1:]):
@@ -538,6 +613,7 @@ def range_limits(ctx, label, case, curve, h0):
                 continue
             flags = [bool(x) for x in h.doesPhaseTraceLimitvmax]
             rep.update(vmax=vmax, vJ=h.vJ, flags=flags)
+            vJ_is_smallest_detonation(ctx, label, rep, model, h)
             results[(lowEnds, highEnds)] = vmax
             ctx.count("fastestDeflag_real", dict(case=case, which=which, e=[lowEnds, highEnds]),
                       bucket="%s:%s" % (which, "cut" if vmax < h.vJ else "vJ"))
@@ -809,6 +885,7 @@ def run(ctx):
                     "outputs)",
                     "coq/Model/RangeLimit.v is hand-written; tied by exact vm_compute "
                     "correspondence on synthetic curves"]
+    known_finding_replays(ctx)
     procs = []
     if proved:
         try:
